@@ -238,6 +238,39 @@ def term_interval(t, env: dict, depth=0) -> Iv:
     raise AnalysisError(f"interval of term kind {k}: {str(t)[:80]}")
 
 
+def zero_divisors(t, env: dict, depth=0) -> list:
+    """atoms (terms) the scalar term t divides by whose interval under env contains 0; `ite` refines like term_interval"""
+    out = []
+    k = t[0]
+    if k == "poly":
+        for mono, _c in t[1]:
+            for a, pw in mono:
+                if pw < 0:
+                    try:
+                        iv = term_interval(a, env)
+                    except AnalysisError:
+                        continue
+                    if iv.contains(0.0) and a not in out:
+                        out.append(a)
+                out += [x for x in zero_divisors(a, env, depth + 1) if x not in out]
+    elif k == "ite":
+        for truth, br in ((True, t[2]), (False, t[3])):
+            e = refine(env, t[1], truth)
+            if e is not None:
+                out += [x for x in zero_divisors(br, e, depth + 1) if x not in out]
+    elif k == "app":
+        if t[1] == "inv":
+            try:
+                if term_interval(t[2][0], env).contains(0.0):
+                    out.append(t[2][0])
+            except AnalysisError:
+                pass
+        for a in t[2]:
+            if isinstance(a, tuple) and a and a[0] in ("poly", "ite", "app"):
+                out += [x for x in zero_divisors(a, env, depth + 1) if x not in out]
+    return out
+
+
 def _poly_interval(p: dict, env) -> Iv:
     # factor out the common monomial (minimum power of every atom present in all monomials)
     monos = list(p.items())
